@@ -562,6 +562,182 @@ def atomicRelaxation (shells : List (List (Transition α))) (ecut gcut : α) (sh
     (script : Script α) : Option (List (Secondary α) × α × Script α) :=
   relaxLoop shells ecut gcut (3 * script.length + 5) [shell] [] (0 : α) script
 
+/-! ### muon bremsstrahlung (MuBremsstrahlungInteractor.hh, xs/MuBremsDiffXsCalculator.hh) -/
+
+/-- element data and compile-time constants entering the differential cross section; they are
+    ORACLE INPUTS (the harness prints the values the real code uses: `pow`, `cbrt` are not in
+    `Num`): `c0 = 16·α·N_A`, `re = r_electron`, `sqrtEuler = sqrt(e)`, `dN = D'_n`,
+    `invCbrtZ = 1/Z^{1/3}`, `z` = atomic number, `amass` = atomic mass [amu], `b`, `bPrime` -/
+structure MuBremsConsts (α : Type) where
+  c0 : α
+  re : α
+  sqrtEuler : α
+  dN : α
+  invCbrtZ : α
+  z : α
+  amass : α
+  b : α
+  bPrime : α
+
+/-- `clamp_to_nonneg` -/
+def clampNonneg (v : α) : α := if Num.lt v (0 : α) then (0 : α) else v
+
+/-- `MuBremsDiffXsCalculator::operator()(energy)` -/
+def muBremsDcs (c : MuBremsConsts α) (incE incM me k : α) : α :=
+  if Num.ge k incE then (0 : α) else
+  let total := incE + incM
+  let massSq := incM * incM
+  let v := k / total
+  let delta := (0.5 : α) * massSq * v / (total - k)
+  let phiN := clampNonneg (Num.log (c.b * c.invCbrtZ * (incM + delta * (c.dN * c.sqrtEuler - (2 : α)))
+                / (c.dN * (me + delta * c.sqrtEuler * c.b * c.invCbrtZ))))
+  let eMaxPrime := total / ((1 : α) + (0.5 : α) * massSq / (me * total))
+  let phiE :=
+    if Num.lt k eMaxPrime then
+      let iz2 := c.invCbrtZ * c.invCbrtZ
+      clampNonneg (Num.log (c.bPrime * iz2 * incM
+        / (((1 : α) + delta * incM / ((me * me) * c.sqrtEuler))
+           * (me + delta * c.sqrtEuler * c.bPrime * iz2))))
+    else (0 : α)
+  c.c0 * ((me * c.re) * (me * c.re)) * c.z * (c.z * phiN + phiE)
+    * ((1 : α) - v * ((1 : α) - (0.75 : α) * v))
+    / ((3 : α) * massSq * k * c.amass)
+
+/-- energy loop: `k = ReciprocalDistribution(cut, T)`, rejected by
+    `RejectionSampler(k · dcs(k), envelope)`; `dcs` is a parameter -/
+def muBremsLoop (dcs : α → α) (cut incE envelope : α) : Nat → Script α → Option (α × Script α)
+  | 0, _ => none
+  | fuel + 1, u1 :: u2 :: rest =>
+    let k := reciprocal cut incE u1
+    if rejection (k * dcs k) envelope u2 then muBremsLoop dcs cut incE envelope fuel rest
+    else some (k, rest)
+  | _ + 1, _ => none
+
+/-- `sample_cos_theta`: the argument `a` of `sqrt(a / (1 − a))` … -/
+def muBremsAngleArg (incE incM k u : α) : α :=
+  let gamma := lorentzFactor incE incM
+  let m := Num.min (1.0 : α) (gamma * incM / k - (1 : α))
+  let r := gamma * (pi : α) * (0.5 : α) * m
+  let rMaxSq := r * r
+  u * rMaxSq / ((1 : α) + rMaxSq)
+
+/-- … and the cosine -/
+def muBremsCosTheta (incE incM k u : α) : α :=
+  let a := muBremsAngleArg incE incM k u
+  Num.cos (Num.sqrt (a / ((1 : α) - a)) / lorentzFactor incE incM)
+
+/-- `MuBremsstrahlungInteractor::operator()` with the cross section as a parameter -/
+def muBremsWith (dcs : α → α) (capacity size : Nat) (incE incM cut : α) (incDir : Vec3 α)
+    (script : Script α) : Outcome α :=
+  match alloc capacity size 1 with
+  | none => .failed size
+  | some size' =>
+    let envelope := cut * dcs cut
+    match muBremsLoop dcs cut incE envelope (script.length + 1) script with
+    | none => .exhausted
+    | some (k, rest) =>
+      match rest with
+      | uc :: uPhi :: rest =>
+        .done (bremFinal incE incDir (momentum incE incM) k (muBremsCosTheta incE incM k uc) uPhi)
+          size' rest
+      | _ => .exhausted
+
+def muBrems (c : MuBremsConsts α) (capacity size : Nat) (incE incM me cut : α) (incDir : Vec3 α)
+    (script : Script α) : Outcome α :=
+  muBremsWith (muBremsDcs c incE incM me) capacity size incE incM cut incDir script
+
+/-! ### Rayleigh scattering (RayleighInteractor.hh): form-factor sampling -/
+
+/-- `fastpow(a, b) = exp(b · log a)` -/
+def fastpow (a b : α) : α := Num.exp (b * Num.log a)
+/-- `RayleighInteractor::fit_slice()` -/
+def fitSlice : α := 0.02
+
+/-- per-element fit parameters `a, b, n` (three terms each) -/
+structure RayleighParams (α : Type) where
+  a : Vec3 α
+  b : Vec3 α
+  n : Vec3 α
+
+/-- `evaluate_weight_and_prob`: (factor, weight, prob); `k1 = centimeter/(c·h)`,
+    `k2` = MeV in native units (oracle constants) -/
+def rayleighInput (p : RayleighParams α) (k1 k2 incE : α) : α × Vec3 α × Vec3 α :=
+  let f := k1 * (incE * k2)
+  let factor := f * f
+  let x := Vec3.axpy factor p.b p.b
+  let w (xi ni : α) : α :=
+    if Num.gt xi (fitSlice : α) then (1 : α) - fastpow ((1 : α) + xi) (-ni)
+    else ni * xi * ((1 : α) - (ni - (1 : α)) / (2 : α) * xi * ((1 : α) - (ni - (2 : α)) / (3 : α) * xi))
+  let weight : Vec3 α := ⟨w x.x p.n.x, w x.y p.n.y, w x.z p.n.z⟩
+  let prob : Vec3 α := ⟨weight.x * p.a.x / (p.b.x * p.n.x), weight.y * p.a.y / (p.b.y * p.n.y),
+                        weight.z * p.a.z / (p.b.z * p.n.z)⟩
+  let invSum := (1 : α) / (prob.x + prob.y + prob.z)
+  (factor, weight, Vec3.axpy invSum prob ⟨(0 : α), (0 : α), (0 : α)⟩)
+
+/-- `make_selector(prob, 3)(rng)` -/
+def select3 (prob : Vec3 α) (u : α) : Nat :=
+  let accum := (-(1 : α)) * u + prob.x
+  if Num.gt accum (0 : α) then 0
+  else if Num.gt (accum + prob.y) (0 : α) then 1 else 2
+
+/-- the sampled `x` (form-factor variable) from `y = w · ξ` -/
+def rayleighX (ninv y : α) : α :=
+  if Num.lt y (fitSlice : α) then
+    y * ninv * ((1 : α) + (0.5 : α) * (ninv + (1 : α)) * y * ((1 : α) - (ninv + (2 : α)) * y / (3 : α)))
+  else fastpow ((1 : α) - y) (-ninv) - (1 : α)
+
+/-- one trial of the loop: (cos θ, repeat?) -/
+def rayleighTrial (p : RayleighParams α) (factor : α) (weight prob : Vec3 α) (u1 u2 u3 : α) :
+    α × Bool :=
+  let i := select3 prob u1
+  let w := weight.get i
+  let ninv := (1 : α) / p.n.get i
+  let b := p.b.get i
+  let x := rayleighX ninv (w * u2)
+  let cost := (1 : α) - (2 : α) * x / (b * factor)
+  (cost, Num.gt ((2 : α) * u3) ((1 : α) + cost * cost) || Num.lt cost (-(1 : α)))
+
+def rayleighLoop (p : RayleighParams α) (factor : α) (weight prob : Vec3 α) :
+    Nat → Script α → Option (α × Script α)
+  | 0, _ => none
+  | fuel + 1, u1 :: u2 :: u3 :: rest =>
+    let t := rayleighTrial p factor weight prob u1 u2 u3
+    if t.2 then rayleighLoop p factor weight prob fuel rest else some (t.1, rest)
+  | _ + 1, _ => none
+
+/-- `RayleighInteractor::operator()` (no secondaries, no allocation) -/
+def rayleigh (p : RayleighParams α) (k1 k2 incE : α) (incDir : Vec3 α) (script : Script α) :
+    Option (Interaction α × Script α) :=
+  let (factor, weight, prob) := rayleighInput p k1 k2 incE
+  match rayleighLoop p factor weight prob (script.length + 1) script with
+  | none => none
+  | some (cost, rest) =>
+    match rest with
+    | [] => none
+    | uPhi :: rest => some (rayleighFinal incE incDir cost uPhi, rest)
+
+/-! ### formulas of table-driven samplers (modelled for the theorems; their rejection functions
+    — SB tables, RB/LPM cross section, screening + LPM functions — are NOT modelled) -/
+
+/-- photon-energy proposal of `RBEnergySampler` and `SBEnergyDistHelper`:
+    `k = sqrt(ReciprocalDistribution(k_min² + k_dc², k_max² + k_dc²)(ξ) − k_dc²)` -/
+def bremsProposal (kmin kmax dc u : α) : α :=
+  Num.sqrt (reciprocal (kmin * kmin + dc) (kmax * kmax + dc) u - dc)
+
+/-- `RBEnergySampler::operator()` loop with the cross section and its maximum as parameters -/
+def rbEnergyLoop (dxs : α → α) (maxv kmin kmax dc : α) : Nat → Script α → Option (α × Script α)
+  | 0, _ => none
+  | fuel + 1, u1 :: u2 :: rest =>
+    let k := bremsProposal kmin kmax dc u1
+    if rejection (dxs k) maxv u2 then rbEnergyLoop dxs maxv kmin kmax dc fuel rest
+    else some (k, rest)
+  | _ + 1, _ => none
+
+/-- Bethe–Heitler above 2 MeV: ε sampled from f₁ (`c = cbrt(ξ)`, oracle value) … -/
+def bhEpsF1 (epsMin c : α) : α := (0.5 : α) - ((0.5 : α) - epsMin) * c
+/-- … or from f₂ -/
+def bhEpsF2 (epsMin u : α) : α := epsMin + ((0.5 : α) - epsMin) * u
+
 /-! ### the property's own bookkeeping -/
 
 /-- Σ kinetic energies of the secondaries, + 2 m_e c² per positron -/
